@@ -176,6 +176,7 @@ type sim struct {
 	prevDigest     string
 	seenCommitted  map[uint64]string
 	seenCommitting map[string]bool
+	c01PHSeen      int
 	c04Hash        map[uint64]string
 	c04NHR         [4]uint64
 	c04View        [2]uint64
@@ -186,6 +187,7 @@ type sim struct {
 	fStart         [2]uint64
 	fSigned        map[string]string
 	signed         map[string]map[string]bool
+	phLog          []phLogEntry
 	futureStored   map[string]bool // rounds for which votes were stored while the round was still in the future
 	realCertificates bool // replays carry certificates consistent with what validators signed before
 	incStartGS     int
